@@ -155,7 +155,7 @@ def insertM (n : Name) (v : MFile) : List (Name × MFile) → List (Name × MFil
 
 inductive Err
   | manifest | notfound | http | unauthorized | net | auth | digestFormat
-  | directStatus | noLocation | deadline | maxRetries | digestMismatch
+  | directStatus | noLocation | deadline | maxRetries | digestMismatch | canceled
 deriving DecidableEq, Repr
 
 inductive PanicSite
@@ -208,6 +208,7 @@ inductive End
   | ueof    -- io.ErrUnexpectedEOF (Content-Length promised more)
   | reset   -- any other read error
   | stall   -- blocks
+  | cancel  -- the caller of PullModel cancels its context at this point (an interrupted pull)
 deriving DecidableEq, Repr
 
 inductive ChunkReply
@@ -363,7 +364,7 @@ structure PSt where
   wrote : Bool     -- `!lastUpdated.IsZero()`
 
 inductive StepRes
-  | done | failed | stalled
+  | done | failed | stalled | canceled
 deriving DecidableEq
 
 /-- one `downloadChunk` -/
@@ -391,6 +392,10 @@ def chunkStep (content : Bytes) (r : ChunkReply) (s : PSt) : StepRes × PSt :=
       | .stall =>
         if wrote' then (.stalled, ⟨file', { s.p with done := s.p.done + data.length }, false⟩)
         else (.failed, ⟨file', s.p, wrote'⟩)             -- undetectable stall: the peer gives up
+      | .cancel =>
+        -- Wait returns ctx.Err(), release() cancels the download: the read ends with context.Canceled,
+        -- which keeps the progress made so far
+        (.canceled, ⟨file', { s.p with done := s.p.done + data.length }, wrote'⟩)
 
 def honestReply : ChunkReply := .body .honest none .eof
 
@@ -413,6 +418,27 @@ def runPart (content : Bytes) : List ChunkReply → Nat → PSt → Nat → Bool
       | (.done, s') => (true, s', c + 1)
       | (.failed, s') => runPart content rs t' s' (c + 1)
       | (.stalled, s') => runPart content rs (t' + 1) s' (c + 1)
+      | (.canceled, s') => (false, s', c + 1)
+
+/-- did the loop of this part end because the caller cancelled?  (`chunkStep`'s verdict does not depend
+    on the file's bytes, so this mirrors `runPart` without threading the file) -/
+def partCanceled (content : Bytes) : List ChunkReply → Nat → PSt → Bool
+  | [], _, _ => false
+  | r :: rs, t, s =>
+    match t with
+    | 0 => false
+    | t' + 1 =>
+      match chunkStep content r s with
+      | (.done, _) => false
+      | (.failed, s') => partCanceled content rs t' s'
+      | (.stalled, s') => partCanceled content rs (t' + 1) s'
+      | (.canceled, _) => true
+
+def anyCanceled (cfg : Cfg) (content : Bytes) (scripts : List (List ChunkReply)) : Nat → List Part → Bool
+  | _, [] => false
+  | i, p :: ps =>
+    (p.done != p.size && partCanceled content (scripts.getD i []) cfg.retries ⟨[], p, false⟩) ||
+      anyCanceled cfg content scripts (i + 1) ps
 
 /-- all parts (they run concurrently on disjoint records; every part runs to its end) -/
 def runParts (cfg : Cfg) (content : Bytes) :
@@ -542,6 +568,7 @@ def downloadLayer (cfg : Cfg) (reg : Registry) (d : Digest) (ls : LScript) (pa :
           (ok, file', byNumber parts.length res, c)
       let net3 := { net2 with nc := c }
       if ok then (.ok file', Partial.none, net3)
+      else if anyCanceled cfg content chunks 0 parts then (.err .canceled, ⟨some file', parts'⟩, net3)
       else (.err .maxRetries, ⟨some file', parts'⟩, net3)
 
 /-! ## PullModel -/
